@@ -63,9 +63,21 @@ TERMINAL = {"completed", "failed", "cancelled"}
 # ---------------------------------------------------------------------------- model harness
 
 
+class Cfg:
+    """Which classes play the two store roles (the planted fixture swaps in its own memory store)."""
+
+    def __init__(self, mem_cls: str = MEM_CLS, sql_cls: str | None = SQL_CLS):
+        self.mem_cls, self.sql_cls = mem_cls, sql_cls
+        self.kinds = ("memory", "sqlite") if sql_cls else ("memory",)
+
+    def cls(self, kind: str) -> str:
+        return self.mem_cls if kind == "memory" else self.sql_cls  # type: ignore[return-value]
+
+
 class Harness:
-    def __init__(self, repo: Any):
+    def __init__(self, repo: Any, cfg: Cfg | None = None):
         self.repo = repo
+        self.cfg = cfg or Cfg()
         w0 = World(repo)
         _pkg, ms = _bind_migrations(repo, w0)
         self.w = Runner(repo).world(ms.entries, "sorted")
@@ -106,10 +118,10 @@ class Harness:
 
     def store(self, kind: str, max_completed: Any = None) -> "StoreModel":
         if kind == "memory":
-            return StoreModel(self, kind, self.w.new(MEM_CLS, max_completed=max_completed), None)
+            return StoreModel(self, kind, self.w.new(self.cfg.mem_cls, max_completed=max_completed), None)
         self._n += 1
         path = f"model-{self._n}.db"
-        rec = self.w.new(SQL_CLS, path)
+        rec = self.w.new(self.cfg.sql_cls, path)
         return StoreModel(self, kind, rec, path)
 
 
@@ -210,15 +222,15 @@ def _slot(q: dict) -> str:
 def rule_r1(chk: Any, h: Harness) -> None:
     repo = chk.repo
     queries = _queries(h)
-    anchors = {"memory": (repo.module(MEM), repo.methods(MEM_CLS)), "sqlite": (repo.module(SQL), repo.methods(SQL_CLS))}
-    for kind in ("memory", "sqlite"):
+    anchors = {k: (repo.cls(h.cfg.cls(k))[0], repo.methods(h.cfg.cls(k))) for k in h.cfg.kinds}
+    for kind in h.cfg.kinds:
         for need in ("query", "delete", "update"):
             if need not in anchors[kind][1]:
                 raise AnchorError(f"C24.R1: {kind} store has no `{need}` method")
     nolist: dict[str, Any] = {}
     total = 0
     broken: set[str] = set()
-    for kind in ("memory", "sqlite"):
+    for kind in h.cfg.kinds:
         m, meths = anchors[kind]
         base = h.store(kind)
         try:
@@ -270,9 +282,9 @@ def rule_r1(chk: Any, h: Harness) -> None:
                    slot not in bad_q, m=m, node=meths["query"], fn=meths["query"], instance=f"{kind}:query:{slot}", reason=bad_q.get(slot, ""))
             chk.ob("C24.R1", f"{kind} store: `delete` with at least one filter removes exactly the matching handlers and returns their number ({slot})",
                    slot not in bad_d, m=m, node=meths["delete"], fn=meths["delete"], instance=f"{kind}:delete:{slot}", reason=bad_d.get(slot, ""))
-    chk.floor("C24.R1", "query/delete evaluations against the oracle (2 stores)", total, 2 * 2 * 250 if not broken else 0)
+    chk.floor("C24.R1", "query/delete evaluations against the oracle (2 stores)", total, len(h.cfg.kinds) * 2 * 250 if not broken else 0)
     chk.floor("C24.R1", "HandlerQuery filter fields enumerated from the dataclass", len(h.fields), 5)
-    if not broken and nolist.get("memory") != nolist.get("sqlite"):
+    if not broken and len(h.cfg.kinds) == 2 and nolist.get("memory") != nolist.get("sqlite"):
         chk.observe(f"filter-less HandlerQuery(): memory store {nolist.get('memory')} vs SQLite store {nolist.get('sqlite')} over 8 handlers — `delete(HandlerQuery())` "
                     "removes everything in memory and nothing in SQLite. The statement only covers deletes with at least one filter, so this is not an obligation "
                     "(dynamic repro: triage/t_more.py::c24del).")
@@ -327,7 +339,7 @@ def rule_r1_sequences(chk: Any, h: Harness, anchors: dict) -> None:
     depth = 3 if chk.tier == "thorough" else 2
     n = 0
     anybad = False
-    for kind in ("memory", "sqlite"):
+    for kind in h.cfg.kinds:
         m, meths = anchors[kind]
         bad = ""
 
@@ -354,7 +366,7 @@ def rule_r1_sequences(chk: Any, h: Harness, anchors: dict) -> None:
         chk.ob("C24.R1", f"{kind} store: after every sequence of <= {depth} upserts / status updates / deletes the handlers visible to `query` equal a reference dictionary model (so both stores agree)",
                not bad, m=m, node=meths["update"], fn=meths["update"], instance=f"{kind}:sequences", reason=bad)
         anybad = anybad or bool(bad)
-    chk.floor("C24.R1", "operation-sequence states compared with the reference model", n, 2 * 90 if not anybad else 0)
+    chk.floor("C24.R1", "operation-sequence states compared with the reference model", n, len(h.cfg.kinds) * 90 if not anybad else 0)
 
 
 # ---------------------------------------------------------------------------- R2 / R3
@@ -374,8 +386,8 @@ def _evict_ops(ids: list[str], ndel: int) -> list[tuple[str, str, str, Any]]:
 
 def rule_r2_r3(chk: Any, h: Harness, depth: int) -> None:
     repo = chk.repo
-    m = repo.module(MEM)
-    meths = repo.methods(MEM_CLS)
+    m = repo.cls(h.cfg.mem_cls)[0]
+    meths = repo.methods(h.cfg.mem_cls)
     upd = meths["update"]
     fails: dict[str, str] = {}
     states = 0
@@ -496,14 +508,14 @@ def rule_r2_r3(chk: Any, h: Harness, depth: int) -> None:
 
 def rule_r4(chk: Any, h: Harness) -> None:
     repo = chk.repo
-    found = repo.find_method(MEM_CLS, "update_handler_status")
+    found = repo.find_method(h.cfg.mem_cls, "update_handler_status")
     if found is None:
         raise AnchorError("C24.R4: `update_handler_status` not found on the store classes")
     _ref, m, fn = found
     UN = object()
     n = 0
     anybad = False
-    for kind in ("memory", "sqlite"):
+    for kind in h.cfg.kinds:
         bad = ""
         empty = h.store(kind)
         for init_status, init_idle, init_err in (("running", T0, "old"), ("completed", None, None)):
@@ -548,7 +560,7 @@ def rule_r4(chk: Any, h: Harness) -> None:
         anybad = anybad or bool(bad)
         chk.ob("C24.R4", f"{kind} store: `update_handler_status` changes exactly the requested fields (status/error/idle_since in unset/None/value; 60 combinations)",
                not bad, m=m, node=fn, fn=fn, instance=f"{kind}:status-update-fields", reason=bad)
-    chk.floor("C24.R4", "status-update combinations evaluated", n, 120 if not anybad else 0)
+    chk.floor("C24.R4", "status-update combinations evaluated", n, 60 * len(h.cfg.kinds) if not anybad else 0)
 
 
 # ---------------------------------------------------------------------------- run
@@ -571,6 +583,40 @@ def run(chk: Any) -> None:
     rule_r4(chk, h)
     chk.exhaustive = True
     chk.extra["interpreter_steps"] = h.w.steps
+    planted_fixture(chk)
+
+
+FIXTURE = "fixtures/c24/planted_store.py"
+FIXTURE_MOD = "verif_fixture_c24.planted_store"
+FIXTURE_NEED = {"C24.R1": "memory:query:is_idle", "C24.R3": "non-terminal-kept", "C24.R3 ": "oldest-first", "C24.R4": "memory:status-update-fields"}
+
+
+def planted_fixture(chk: Any) -> None:
+    """R1/R3/R4 expect no finding on the repository: a planted store with known defects is analysed on every run and must be reported."""
+    from ..index import Module, _set_parents
+    from ..report import VERIF, Check
+
+    path = VERIF / FIXTURE
+    if not path.is_file():
+        raise AnchorError(f"C24: fixture {path} is missing")
+    src = path.read_text()
+    tree = ast.parse(src, filename=str(path))
+    _set_parents(tree)
+    repo = chk.repo.with_overlay({})
+    fm = Module(FIXTURE_MOD, path, f"verif-fixture/{FIXTURE}", src, tree)
+    repo._collect(fm)
+    repo.modules[FIXTURE_MOD] = fm
+    repo.by_rel[fm.rel] = fm
+    scratch = Check("C24", repo, "quick", 0, quiet=True, write=False)
+    h = _guard("C24", "planted fixture", lambda: Harness(repo, Cfg(f"{FIXTURE_MOD}:PlantedStore", None)))
+    rule_r1(scratch, h)
+    rule_r2_r3(scratch, h, 3)
+    rule_r4(scratch, h)
+    got = {(o.rule, o.key.rsplit("|", 1)[-1]) for o in scratch.violations()}
+    missing = [(r.strip(), i) for r, i in FIXTURE_NEED.items() if (r.strip(), i) not in got]
+    if missing:
+        raise AnchorError(f"C24: planted defects not reported on {FIXTURE}: {missing}; the rules are blind")
+    chk.floor("C24.R1", "planted fixture defects reported (R1 is_idle, R3 non-terminal eviction, R3 newest-first eviction, R4 idle_since=None)", len(FIXTURE_NEED), 4)
 
 
 _PM = "packages/llama-agents-server/src/llama_agents/server/_store/memory_workflow_store.py"
